@@ -1,3 +1,4 @@
 pub mod dag;
 pub mod tree;
 pub mod globref;
+pub mod fspath;
